@@ -499,6 +499,12 @@ def start (c : Cfg α) (dstExists : Bool) (k0 : Nat := 0) (exit0 : Nat := 0) : S
 /-- the state after at most `n` system calls of this file (= what a crash before call n+1 leaves) -/
 def run (c : Cfg α) (dstExists : Bool) (n : Nat) : St α := runN c n (start c dstExists)
 
+/-- tuklib_exit(status, E_ERROR, show_error), reached when no signal is to be re-raised: unless the status already is
+    E_ERROR, standard output is closed with fclose() and a failure (of the close or an earlier stdio error) turns the
+    status into E_ERROR (with a message unless -qq).  `closeOutFails` is the environment's answer to that close. -/
+def tuklibExit (status : Nat) (closeOutFails : Bool) : Nat :=
+  if status ≠ 1 ∧ closeOutFails then 1 else status
+
 /-- the whole coder output in the order it must appear in the target -/
 def payload : List (Op α) → List α
   | [] => []
